@@ -94,18 +94,24 @@ struct ArgyrisFix
 {
   void operator()(MeshData<S2>& md, Ctx& c) const
   {
-    int bad = 0;
+    int bad = 0, rotated = 0;
     for(auto& cl : md.cells)
     {
       auto unstable = [&]() { double v[3][2]; for(int k = 0; k < 3; ++k) for(int i = 0; i < 2; ++i) v[k][i] = md.vtx[size_t(cl[size_t(k)])][size_t(i)]; return argyris_pivot_unstable(v); };
       if(!unstable()) continue;
       ++bad;
       if(!c.excl("c15-argyris-pivot")) continue;
-      for(int r = 0; r < 2 && unstable(); ++r) std::rotate(cl.begin(), cl.begin() + 1, cl.end());
+      for(int r = 0; r < 2 && unstable(); ++r) { std::rotate(cl.begin(), cl.begin() + 1, cl.end()); ++rotated; }
       if(unstable()) throw vf::Discard{"all three rotations of an Argyris cell are pivot-unstable"};
     }
     c.label(bad ? "argyris:pivot-unstable-cell" : "argyris:pivot-stable");
     md.desc.set("pivot_unstable_cells", bad);
+    if(rotated)
+    {
+      // keep the description truthful: the cell lists changed after gen_mesh() wrote them
+      md.desc.set("rotated_by_switch", rotated);
+      if(md.nc() <= 6) { vf::J cj = vf::J::arr(); for(auto& cl : md.cells) { vf::J q = vf::J::arr(); for(int k = 0; k < 3; ++k) q.add(cl[size_t(k)]); cj.add(q); } md.desc.set("cells", cj); }
+    }
   }
 };
 static void argyris(Tape& t, Ctx& c)
